@@ -122,6 +122,131 @@ theorem jwk_marshal_is_registered_rsa_pub (o : Oracle) (k : Key) (n e : Nat) (hp
     · simp [rsaPubObj, lookup_oset, minOctets_eq]
     · simp [rsaPubObj, lookup_oset, minOctets_eq]
 
+/-! ## RSA private keys with any number of primes (RFC 7518 §6.3.2, incl. "oth") -/
+
+/-- the (r, d, t) triples of the spec from the Go representation: CRTValues (Exp, Coeff, R) give d and t,
+    the prime itself comes from `Primes[i+2]` (CRTValue.R is the product of the earlier primes) -/
+def specOth : List (Nat × Nat × Nat) → List Nat → List (Nat × Nat × Nat)
+  | (exp, coeff, _) :: rest, r :: primes => (r, exp, coeff) :: specOth rest primes
+  | _, _ => []
+
+theorem run_encodeOth (o : Oracle) (crt : List (Nat × Nat × Nat)) (primes : List Nat) :
+    (encodeOth crt primes).run o = .ok ((specOth crt primes).map (othElement (encS o))) := by
+  induction crt generalizing primes with
+  | nil => simp [encodeOth, specOth]
+  | cons c rest ih =>
+    obtain ⟨exp, coeff, r0⟩ := c
+    cases primes with
+    | nil => simp [encodeOth, specOth]
+    | cons r ps => simp [encodeOth, specOth, ih, othElement, minOctets_eq]
+
+/-- closed form of the object `MarshalJSON` serialises for an RSA private key with precomputed values -/
+def rsaPrivObj (o : Oracle) (k : Key) (n e d p q : Nat) (rs : List Nat) (pre : RsaPre) : Obj :=
+  osetOpt
+    (oset (oset (oset (oset (oset (oset (rsaPubObj o k n e)
+      "d" (.str (encS o (minBE d)))) "p" (.str (encS o (minBE p)))) "q" (.str (encS o (minBE q))))
+      "dp" (.str (encS o (minBE pre.dp)))) "dq" (.str (encS o (minBE pre.dq)))) "qi" (.str (encS o (minBE pre.qi))))
+    "oth" (if specOth pre.crt rs = [] then none else some (.arr ((specOth pre.crt rs).map (othElement (encS o)))))
+
+/-- the RSA validation oracle accepts the key; its primes are pairwise coprime; one CRT value per extra prime -/
+structure RsaOK (o : Oracle) (n e d p q : Nat) (rs : List Nat) (pre : RsaPre) : Prop where
+  n0 : 0 < n
+  e2 : 2 ≤ e
+  e31 : e ≤ 2147483647
+  valid : (o ⟨"jwk.rsa.validate", [.int n, .int e, .int d,
+      .arr ((p :: q :: rs).map fun (x : Nat) => Wire.int (x : Int))]⟩).asBool = true
+  coprime : pairwiseCoprime (p :: q :: rs) = true
+  crt : pre.crt.length = rs.length
+
+theorem marshal_rsa_priv (o : Oracle) (k : Key) (n e d p q : Nat) (rs : List Nat) (pre : RsaPre)
+    (hp : k.pub = .rsa ⟨n, e⟩) (hq : k.priv = .rsa ⟨n, e⟩ d (p :: q :: rs) (some pre))
+    (R : RsaOK o n e d p q rs pre) :
+    (marshal k).run o = .ok (rsaPrivObj o k n e d p q rs pre) := by
+  have h1 : n ≠ 0 := by have := R.n0; omega
+  have h2 : ¬ ((e : Int) < 2 ∨ (e : Int) > 2147483647) := by have := R.e2; have := R.e31; omega
+  have hv : (validateRsaPriv ⟨n, e⟩ d (p :: q :: rs)).run o = .ok () := by
+    have hl2 : ¬ ((p :: q :: rs).length < 2) := by simp
+    unfold validateRsaPriv rsaValidateQ
+    simp only [hl2, if_false, PO.run_bind, PO.run_query, PO.run_pure]
+    rw [R.valid]
+    simp [R.coprime]
+  have hl : ¬ (pre.crt.length ≠ (p :: q :: rs).length - 2) := by simp [R.crt]
+  unfold marshal
+  simp only [PO.run_bind, run_encodeCommon, hp, hq]
+  simp only [encodeMaterial, encodeRsa, PO.run_bind, validateRsaPub, hv]
+  simp only [encodeRsaCrt, PO.run_bind, PO.run_pure, hl, if_false, run_setBigInt, run_setBytes, run_encodeOth,
+    List.drop, List.getD]
+  by_cases ho : specOth pre.crt rs = []
+  · simp [h1, h2, ho, rsaPrivObj, rsaPubObj, osetOpt]
+  · simp [h1, h2, ho, rsaPrivObj, rsaPubObj, osetOpt]
+
+/-- **RSA private keys (2, 3, 4, … primes): the emitted object is the registered representation** —
+    every member, including each `oth[i].r/d/t`, equals the spec encoder's (minimal-length octets). -/
+theorem jwk_marshal_is_registered_rsa_priv (o : Oracle) (k : Key) (n e d p q : Nat) (rs : List Nat) (pre : RsaPre)
+    (hp : k.pub = .rsa ⟨n, e⟩) (hq : k.priv = .rsa ⟨n, e⟩ d (p :: q :: rs) (some pre))
+    (R : RsaOK o n e d p q rs pre) :
+    ∃ m, (marshal k).run o = .ok m ∧ ∀ name, Wire.lookup name m =
+      Wire.lookup name (specEncode (encS o) (encStdS o)
+        (.rsa n e (some ⟨d, p, q, some (pre.dp, pre.dq, pre.qi), specOth pre.crt rs⟩)) (specParams o k) k.raw) := by
+  refine ⟨_, marshal_rsa_priv o k n e d p q rs pre hp hq R, ?_⟩
+  intro name
+  unfold rsaPrivObj rsaPubObj
+  simp only [lookup_osetOpt, lookup_oset]
+  by_cases g0 : name = "oth"
+  · subst g0
+    by_cases ho : specOth pre.crt rs = []
+    · simp [ho, specEncode, materialMembers, othMember, Wire.lookup, mKty, mN, mE, mD, mP, mQ, mDP, mDQ, mQI, lookup_append]
+      rw [lookup_commonObj _ _ _ _ (by decide)]
+      simp [paramMembers, lookup_append, lookup_optMember, mKid, mUse, mKeyOps, mAlg, mX5u, mX5c, mX5t, mX5tS256]
+    · simp [ho, specEncode, materialMembers, othMember, Wire.lookup, mKty, mN, mE, mD, mP, mQ, mDP, mDQ, mQI, mOth, lookup_append]
+  by_cases g1 : name = "qi"
+  · subst g1; simp [specEncode, materialMembers, Wire.lookup, mKty, mN, mE, mD, mP, mQ, mDP, mDQ, mQI, minOctets_eq, lookup_append]
+  by_cases g2 : name = "dq"
+  · subst g2; simp [specEncode, materialMembers, Wire.lookup, mKty, mN, mE, mD, mP, mQ, mDP, mDQ, minOctets_eq, lookup_append]
+  by_cases g3 : name = "dp"
+  · subst g3; simp [specEncode, materialMembers, Wire.lookup, mKty, mN, mE, mD, mP, mQ, mDP, minOctets_eq, lookup_append]
+  by_cases g4 : name = "q"
+  · subst g4; simp [specEncode, materialMembers, Wire.lookup, mKty, mN, mE, mD, mP, mQ, minOctets_eq, lookup_append]
+  by_cases g5 : name = "p"
+  · subst g5; simp [specEncode, materialMembers, Wire.lookup, mKty, mN, mE, mD, mP, minOctets_eq, lookup_append]
+  by_cases g6 : name = "d"
+  · subst g6; simp [specEncode, materialMembers, Wire.lookup, mKty, mN, mE, mD, minOctets_eq, lookup_append]
+  by_cases g7 : name = "n"
+  · subst g7; simp [specEncode, materialMembers, Wire.lookup, mKty, mN, minOctets_eq]
+  by_cases g8 : name = "e"
+  · subst g8; simp [specEncode, materialMembers, Wire.lookup, mKty, mN, mE, minOctets_eq]
+  by_cases g9 : name = "kty"
+  · subst g9; simp [specEncode, Wire.lookup, mKty, KeyMaterial.kty, ktyRSA]; decide
+  rw [if_neg g0, if_neg g1, if_neg g2, if_neg g3, if_neg g4, if_neg g5, if_neg g6, if_neg g7, if_neg g8, if_neg g9,
+    lookup_commonObj _ _ _ _ g9]
+  have hoth : Wire.lookup name (othMember (encS o) (specOth pre.crt rs)) = none := by
+    unfold othMember; split <;> simp [Wire.lookup, mOth, g0]
+  simp [specEncode, materialMembers, Wire.lookup, mKty, mN, mE, mD, mP, mQ, mDP, mDQ, mQI, lookup_append, hoth,
+    g0, g1, g2, g3, g4, g5, g6, g7, g8, g9]
+
+/-- the `oth` array has one element per extra prime, in order, and element i is the encoding of
+    (r_i, d_i, t_i) = (Primes[i+2], CRTValues[i].Exp, CRTValues[i].Coeff) — no element aliases another -/
+theorem oth_elements (crt : List (Nat × Nat × Nat)) (rs : List Nat) (h : crt.length = rs.length) :
+    (specOth crt rs).length = rs.length ∧
+    ∀ i (hi : i < rs.length), (specOth crt rs)[i]? = some (rs[i], (crt[i]'(h ▸ hi)).1, (crt[i]'(h ▸ hi)).2.1) := by
+  induction crt generalizing rs with
+  | nil =>
+    cases rs with
+    | nil => simp [specOth]
+    | cons r ps => simp at h
+  | cons c rest ih =>
+    obtain ⟨exp, coeff, r0⟩ := c
+    cases rs with
+    | nil => simp at h
+    | cons r ps =>
+      have h' : rest.length = ps.length := by simpa using h
+      obtain ⟨l, g⟩ := ih ps h'
+      refine ⟨by simp [specOth, l], ?_⟩
+      intro i hi
+      cases i with
+      | zero => simp [specOth]
+      | succ j => simpa [specOth] using g j (by simpa using hi)
+
 /-- non-vacuity / regression anchor: the exponents at the octet-length boundaries have no leading
     zero octet in the model's encoding (255 ↦ ff, 256 ↦ 01 00, 65535 ↦ ff ff, 2^24−1 ↦ ff ff ff) -/
 example : minBE 255 = [0xff] ∧ minBE 256 = [1, 0] ∧ minBE 65535 = [0xff, 0xff] ∧ minBE 65536 = [1, 0, 0] ∧
